@@ -1081,9 +1081,14 @@ impl Chooser for Dfs {
             let mut order: Vec<usize> = (0..cur.len()).collect();
             if self.preempt_bound.is_some() {
                 // under a preemption bound the default is to let the running thread go on
-                if let Some(lt) = self.last_tid {
-                    order.sort_by_key(|i| cur[*i].0 != lt);
-                }
+                // ... and otherwise caller, then worker(s), then the rest
+                let lt = self.last_tid;
+                let rank = |k: ThreadKind| match k {
+                    ThreadKind::Caller => 0,
+                    ThreadKind::Worker => 1,
+                    _ => 2,
+                };
+                order.sort_by_key(|i| (Some(cur[*i].0) != lt, rank(enabled[*i].kind), cur[*i].0));
             }
             for i in order {
                 let c = &cur[i];
